@@ -262,6 +262,93 @@ def fire_and_forget(ctx, kinds):
             ctx.violation('SEQ/autoclose/live-worker-left/%s/unreferenced' % kind, {'kind': kind}, {'left': left}, 'no live worker after the block', engine='SEQ')
 
 
+# ---- SEQ on process / remote kinds (driver subprocess) ---------------------------------------------------------------------
+def allkind_histories(quick):
+    """Histories over {create K (run / not run), finish i, terminate i, restart i, list} for the process and remote classes."""
+    import itertools
+    kinds = ('P', 'R', 'PP', 'PR')
+    out = []
+    ops = ['create', 'create0', 'finish', 'terminate', 'restart', 'list']
+    depth = 3 if quick else 4
+    for kind in kinds:
+        pers = len(kind) == 2
+        for L in range(1, depth + 1):
+            for h in itertools.product(ops, repeat=L):
+                if h[0] not in ('create', 'create0'):
+                    continue
+                if not pers and 'restart' in h:
+                    continue
+                # every op after the first refers to worker 0 or creates another one (max 2 workers)
+                if sum(1 for o in h if o.startswith('create')) > 2:
+                    continue
+                out.append((kind, h))
+    return out
+
+
+def allkind_script(kind, h):
+    pers = len(kind) == 2
+    sc = ([{'op': 'heal_server'}] if kind in ('R', 'PR') else []) + [{'op': 'reset_registry'}]
+    model = []      # alive flags
+    runflag = []
+    n = 0
+    for o in h:
+        if o in ('create', 'create0'):
+            c = {'op': 'create', 'var': 'w%d' % n, 'kind': kind, 'target': 'slow_echo' if pers else 'cooperative'}
+            if o == 'create0':
+                c['run'] = False
+            sc.append(c)
+            model.append(o == 'create')
+            runflag.append(o == 'create')
+            n += 1
+        elif o == 'finish':
+            if pers:
+                sc.append({'op': 'call', 'var': 'w0', 'method': 'wait', 'args': [10]})
+            else:
+                sc.append({'op': 'call', 'var': 'w0', 'method': 'terminate', 'args': [5]})
+            model[0] = False
+        elif o == 'terminate':
+            sc.append({'op': 'call', 'var': 'w0', 'method': 'terminate', 'args': [5]})
+            model[0] = False
+        elif o == 'restart':
+            sc.append({'op': 'call', 'var': 'w0', 'method': 'restart', 'kwargs': {'timeout': 2}, 'timeout': 30})
+            model[0] = runflag[0]       # a worker created with run=False is restarted with run=False
+        elif o == 'list':
+            sc.append({'op': 'active_children', 'expect': sorted('w%d' % i for i, a in enumerate(model) if a)})
+    sc.append({'op': 'active_children', 'expect': sorted('w%d' % i for i, a in enumerate(model) if a)})
+    return sc
+
+
+def run_allkinds(ctx):
+    from .. import land
+    hs = allkind_histories(ctx.quick)
+    jobs = [{'script': allkind_script(k, h)} for k, h in hs]
+    res = land.run_cases(jobs, case_timeout=120)
+    for (kind, h), job, obs in zip(hs, jobs, res):
+        ctx.count()
+        ctx.distinct(('allkinds', kind) + tuple(h))
+        if obs.get('driver_hang') or obs.get('driver_error'):
+            ctx.extra.setdefault('harness_anomalies', []).append({'kind': kind, 'h': list(h)})
+            continue
+        bad = None
+        for op, st in zip(job['script'], obs['steps']):
+            if st.get('harness_error') or st.get('hang') or ('exc' in st and op['op'] != 'active_children'):
+                bad = ('harness', {'op': op, 'st': st})
+                break
+            if op['op'] == 'active_children' and [x for x in (st.get('ret') or []) if x != 'foreign:RemoteServerProcess'] != op['expect']:
+                got = [x for x in (st.get('ret') or []) if x != 'foreign:RemoteServerProcess']
+                what = 'dead-worker-yielded' if set(got) - set(op['expect']) else 'live-worker-missing'
+                after = 'after-restart' if 'restart' in h else 'no-restart'
+                bad = ('SEQ/%s/%s/%s' % (what, kind, after), {'yielded': st.get('ret', st), 'alive': op['expect']})
+                break
+        ctx.outcome('seq-%s:%s' % (kind, 'ok' if not bad else bad[0]))
+        if bad and bad[0] != 'harness':
+            ctx.violation(bad[0], {'kind': kind, 'history': list(h)}, bad[1], 'yielded set == live workers', engine='SEQ')
+        elif bad:
+            ctx.extra.setdefault('harness_anomalies', []).append({'kind': kind, 'h': list(h), 'why': str(bad[1])[:200]})
+    ctx.extra['allkind_histories'] = len(hs)
+    ctx.transitions += len(hs)
+
+
 # ---- SCHED ----------------------------------------------------------------------------------------------------
 def sched_scenarios():
     """Each scenario: (name, setup) where setup() -> (bodies, finish)."""
@@ -459,6 +546,7 @@ def run(ctx):
         retention(ctx, 300)
         autoclose(ctx)
         fire_and_forget(ctx, ('T', 'P') if ctx.quick else ('T', 'P', 'PP'))
+        run_allkinds(ctx)
     if only in (None, 'sched'):
         run_sched(ctx)
     ctx.traces_validated = ctx.evaluations   # every schedule/history is executed on the implementation itself
